@@ -4,6 +4,7 @@ import (
 	"bytes"
 	"fmt"
 	"go/ast"
+	"go/constant"
 	"go/printer"
 	"go/token"
 	"go/types"
@@ -75,8 +76,9 @@ type inliner struct {
 	info     *types.Info
 	fresh    int
 	count    int
-	escaping map[types.Object]bool // locals of the declaration being rewritten that are address-taken or captured
-	declared map[string]bool       // names declared inside the declaration being rewritten
+	escaping map[types.Object]bool                // locals of the declaration being rewritten that are address-taken or captured
+	declared map[string]bool                      // names declared inside the declaration being rewritten
+	retSig   map[*ast.ReturnStmt]*types.Signature // the function each return statement of the declaration leaves
 }
 
 // InlineOverlay computes rewritten sources (absolute file name -> content) for
@@ -136,6 +138,9 @@ func InlineOverlay(pkgs map[string]*packages.Package, fset *token.FileSet, read 
 			}
 			if ok {
 				out[name] = src
+				if dir := os.Getenv("GTSVERIF_DUMP_INLINE"); dir != "" {
+					os.WriteFile(dir+"/"+strings.ReplaceAll(strings.TrimPrefix(name, "/"), "/", "_"), src, 0o644)
+				}
 			}
 		}
 		total += in.count
@@ -147,11 +152,13 @@ func InlineOverlay(pkgs map[string]*packages.Package, fset *token.FileSet, read 
 func (in *inliner) decl(d ast.Decl) {
 	in.escaping = map[types.Object]bool{}
 	in.declared = map[string]bool{}
+	captured := map[types.Object]bool{}
+	writes := map[types.Object]int{} // assignments other than the definition
 	ast.Inspect(d, func(n ast.Node) bool {
 		switch x := n.(type) {
 		case *ast.Ident:
-			if o := in.info.Defs[x]; o != nil {
-				in.declared[x.Name] = true
+			if o := in.info.Defs[x]; o != nil && !(o.Pkg() != nil && o.Parent() == o.Pkg().Scope()) {
+				in.declared[x.Name] = true // (the declaration's own package-level name shadows nothing)
 			}
 		case *ast.UnaryExpr:
 			if x.Op == token.AND {
@@ -166,14 +173,69 @@ func (in *inliner) decl(d ast.Decl) {
 			ast.Inspect(x.Body, func(m ast.Node) bool {
 				if id, ok := m.(*ast.Ident); ok {
 					if o := in.info.Uses[id]; o != nil {
-						in.escaping[o] = true
+						captured[o] = true
 					}
 				}
 				return true
 			})
+		case *ast.AssignStmt:
+			for _, l := range x.Lhs {
+				if id, ok := ast.Unparen(l).(*ast.Ident); ok {
+					if o := in.info.Uses[id]; o != nil {
+						writes[o]++
+					}
+				}
+			}
+		case *ast.IncDecStmt:
+			if id, ok := ast.Unparen(x.X).(*ast.Ident); ok {
+				if o := in.info.Uses[id]; o != nil {
+					writes[o]++
+				}
+			}
+		case *ast.RangeStmt:
+			if x.Tok == token.ASSIGN {
+				for _, e := range []ast.Expr{x.Key, x.Value} {
+					if id, ok := e.(*ast.Ident); ok && e != nil {
+						if o := in.info.Uses[id]; o != nil {
+							writes[o]++
+						}
+					}
+				}
+			}
 		}
 		return true
 	})
+	// ... unless nothing ever writes the variable after its definition: then it has one value for good
+	for o := range captured {
+		if writes[o] > 0 {
+			in.escaping[o] = true
+		}
+	}
+	in.retSig = map[*ast.ReturnStmt]*types.Signature{}
+	var walk func(n ast.Node, sig *types.Signature)
+	walk = func(n ast.Node, sig *types.Signature) {
+		ast.Inspect(n, func(m ast.Node) bool {
+			switch x := m.(type) {
+			case *ast.FuncLit:
+				if m == n {
+					return true
+				}
+				ls, _ := in.info.TypeOf(x).(*types.Signature)
+				walk(x.Body, ls)
+				return false
+			case *ast.ReturnStmt:
+				in.retSig[x] = sig
+			}
+			return true
+		})
+	}
+	if fd, ok := d.(*ast.FuncDecl); ok && fd.Body != nil {
+		if fn, ok := in.info.Defs[fd.Name].(*types.Func); ok {
+			walk(fd.Body, fn.Type().(*types.Signature))
+		}
+	} else {
+		walk(d, nil)
+	}
 	var fix func(list []ast.Stmt) []ast.Stmt
 	fix = func(list []ast.Stmt) []ast.Stmt {
 		var out []ast.Stmt
@@ -200,21 +262,41 @@ func (in *inliner) decl(d ast.Decl) {
 }
 
 // helperOf returns the declaration to inline for call, or nil.
-func (in *inliner) helperOf(call *ast.CallExpr) (*ast.FuncDecl, *types.Signature) {
-	id, ok := ast.Unparen(call.Fun).(*ast.Ident)
-	if !ok {
+func (in *inliner) helperOf(call *ast.CallExpr, early bool) (*ast.FuncDecl, *types.Signature) {
+	var id *ast.Ident
+	var recvArg ast.Expr
+	switch f := ast.Unparen(call.Fun).(type) {
+	case *ast.Ident:
+		id = f
+	case *ast.SelectorExpr:
+		if sel := in.info.Selections[f]; sel != nil && sel.Kind() == types.MethodVal {
+			id, recvArg = f.Sel, f.X
+		}
+	}
+	if id == nil {
 		return nil, nil
 	}
 	fn, ok := in.info.Uses[id].(*types.Func)
 	if !ok || fn.Pkg() == nil || fn.Pkg() != in.pk.Types || fn.Exported() {
 		return nil, nil
 	}
-	if reviewedHelpers[fn.Pkg().Path()+"."+fn.Name()] || fn.Name() == "init" || fn.Name() == "main" {
+	sig := fn.Type().(*types.Signature)
+	if (sig.Recv() != nil) != (recvArg != nil) || sig.Variadic() || call.Ellipsis != token.NoPos {
 		return nil, nil
 	}
-	sig := fn.Type().(*types.Signature)
-	if sig.Recv() != nil || sig.Variadic() || call.Ellipsis != token.NoPos {
-		return nil, nil
+	if sig.Recv() == nil {
+		if reviewedHelpers[fn.Pkg().Path()+"."+fn.Name()] || fn.Name() == "init" || fn.Name() == "main" {
+			return nil, nil
+		}
+	} else {
+		// a method: of a named type of this package (no interface method, no embedding promotion), not
+		// recorded in the baseline, and called on an operand of exactly the receiver's type
+		if types.IsInterface(sig.Recv().Type()) || len(in.info.Selections[ast.Unparen(call.Fun).(*ast.SelectorExpr)].Index()) != 1 {
+			return nil, nil
+		}
+		if tv, ok := in.info.Types[recvArg]; !ok || !types.Identical(tv.Type, sig.Recv().Type()) {
+			return nil, nil
+		}
 	}
 	var fd *ast.FuncDecl
 	for _, f := range in.pk.Syntax {
@@ -226,6 +308,14 @@ func (in *inliner) helperOf(call *ast.CallExpr) (*ast.FuncDecl, *types.Signature
 	}
 	if fd == nil || fd.Body == nil || fd.Type.TypeParams != nil {
 		return nil, nil
+	}
+	if sig.Recv() != nil {
+		if _, recorded := baselineSigs[fn.Pkg().Path()+" "+funcKey(fd)]; recorded {
+			return nil, nil
+		}
+		if fd.Recv == nil || len(fd.Recv.List) != 1 || len(fd.Recv.List[0].Names) != 1 || fd.Recv.List[0].Names[0].Name == "_" {
+			return nil, nil
+		}
 	}
 	if fd.Type.Results != nil {
 		for _, r := range fd.Type.Results.List {
@@ -251,8 +341,11 @@ func (in *inliner) helperOf(call *ast.CallExpr) (*ast.FuncDecl, *types.Signature
 		ast.Inspect(st, func(n ast.Node) bool {
 			switch x := n.(type) {
 			case *ast.ReturnStmt:
-				if !(last && ast.Stmt(x) == st) {
+				if !(last && ast.Stmt(x) == st) && !early {
 					good = false
+				}
+				if len(x.Results) != sig.Results().Len() {
+					good = false // `return f()` spreading a tuple
 				}
 			case *ast.DeferStmt, *ast.GoStmt, *ast.LabeledStmt, *ast.FuncLit, *ast.SelectStmt:
 				good = false
@@ -262,6 +355,9 @@ func (in *inliner) helperOf(call *ast.CallExpr) (*ast.FuncDecl, *types.Signature
 				}
 			case *ast.CallExpr:
 				if cid, isID := ast.Unparen(x.Fun).(*ast.Ident); isID && in.info.Uses[cid] == fn {
+					good = false // recursive
+				}
+				if se, isSel := ast.Unparen(x.Fun).(*ast.SelectorExpr); isSel && in.info.Uses[se.Sel] == fn {
 					good = false // recursive
 				}
 			case *ast.Ident:
@@ -321,6 +417,9 @@ func mentionsObj(info *types.Info, e ast.Node, o types.Object) bool {
 
 // stmt returns the replacement of st when st is an inlinable call statement.
 func (in *inliner) stmt(st ast.Stmt) []ast.Stmt {
+	if out := in.earlyStmt(st); out != nil {
+		return out
+	}
 	var call *ast.CallExpr
 	var lhs []ast.Expr
 	tok := token.ILLEGAL
@@ -342,19 +441,12 @@ func (in *inliner) stmt(st ast.Stmt) []ast.Stmt {
 	if call == nil {
 		return nil
 	}
-	fd, sig := in.helperOf(call)
+	fd, sig := in.helperOf(call, false)
 	if fd == nil {
 		return nil
 	}
-	var params []*ast.Ident
-	var ptypes []ast.Expr
-	for _, p := range fd.Type.Params.List {
-		for _, n := range p.Names {
-			params = append(params, n)
-			ptypes = append(ptypes, p.Type)
-		}
-	}
-	if len(params) != len(call.Args) {
+	params, ptypes, ptyps, args := in.formals(fd, sig, call)
+	if len(params) != len(args) {
 		return nil
 	}
 	var rtypes []ast.Expr
@@ -425,7 +517,7 @@ func (in *inliner) stmt(st ast.Stmt) []ast.Stmt {
 	if lhs != nil && tok == token.ASSIGN {
 		for i, p := range params {
 			po := in.info.Defs[p]
-			ao := in.simpleArg(call.Args[i], sig.Params().At(i).Type())
+			ao := in.simpleArg(args[i], ptyps[i])
 			if ao == nil {
 				continue
 			}
@@ -436,7 +528,7 @@ func (in *inliner) stmt(st ast.Stmt) []ast.Stmt {
 					continue
 				}
 				clean := true
-				for j, a := range call.Args {
+				for j, a := range args {
 					if j != i && mentionsObj(in.info, a, ao) {
 						clean = false
 					}
@@ -459,12 +551,12 @@ func (in *inliner) stmt(st ast.Stmt) []ast.Stmt {
 	}
 	for i, p := range params {
 		po := in.info.Defs[p]
-		arg := call.Args[i]
+		arg := args[i]
 		if ao, ok := inout[i]; ok && ao != nil {
 			subst[po] = ast.Unparen(arg)
 			continue
 		}
-		if ao := in.simpleArg(arg, sig.Params().At(i).Type()); ao != nil && !assigned[po] {
+		if ao := in.simpleArg(arg, ptyps[i]); ao != nil && !assigned[po] {
 			clash := false
 			for _, io := range inout {
 				if io == ao {
@@ -483,7 +575,7 @@ func (in *inliner) stmt(st ast.Stmt) []ast.Stmt {
 			}
 		}
 		sameType := false
-		if tv, ok := in.info.Types[arg]; ok && tv.Type != nil && tv.Value == nil && types.Identical(tv.Type, sig.Params().At(i).Type()) {
+		if tv, ok := in.info.Types[arg]; ok && tv.Type != nil && tv.Value == nil && types.Identical(tv.Type, ptyps[i]) {
 			sameType = true
 		}
 		// out-parameter of a `:=` call: `a, b := f(x.A, x.B)` with `return a', b'` where a' is the
@@ -502,7 +594,7 @@ func (in *inliner) stmt(st ast.Stmt) []ast.Stmt {
 						clean = false
 					}
 				}
-				for _, a := range call.Args {
+				for _, a := range args {
 					ast.Inspect(a, func(n ast.Node) bool {
 						if id, ok := n.(*ast.Ident); ok && id.Name == lid.Name {
 							clean = false
@@ -653,16 +745,561 @@ func (in *inliner) stmt(st ast.Stmt) []ast.Stmt {
 	return out
 }
 
+// formals lists the callee's formal parameters (the receiver first, for a method)
+// with their type expressions and types, and the matching actual arguments.
+func (in *inliner) formals(fd *ast.FuncDecl, sig *types.Signature, call *ast.CallExpr) (params []*ast.Ident, ptypes []ast.Expr, ptyps []types.Type, args []ast.Expr) {
+	if sig.Recv() != nil {
+		params = append(params, fd.Recv.List[0].Names[0])
+		ptypes = append(ptypes, fd.Recv.List[0].Type)
+		ptyps = append(ptyps, sig.Recv().Type())
+		args = append(args, ast.Unparen(call.Fun).(*ast.SelectorExpr).X)
+	}
+	k := 0
+	for _, p := range fd.Type.Params.List {
+		for _, n := range p.Names {
+			params = append(params, n)
+			ptypes = append(ptypes, p.Type)
+			ptyps = append(ptyps, sig.Params().At(k).Type())
+			k++
+		}
+	}
+	args = append(args, call.Args...)
+	return
+}
+
+// hasEarlyReturn reports whether the body returns anywhere but in its last statement.
+func hasEarlyReturn(fd *ast.FuncDecl) bool {
+	early := false
+	for i, st := range fd.Body.List {
+		last := i == len(fd.Body.List)-1
+		ast.Inspect(st, func(n ast.Node) bool {
+			if r, ok := n.(*ast.ReturnStmt); ok && !(last && ast.Stmt(r) == st) {
+				early = true
+			}
+			return !early
+		})
+	}
+	return early
+}
+
+// bindSimple binds the callee's parameters for the early-return forms: a
+// parameter the body never assigns, whose argument is a plain local of the same
+// type, is replaced by it; every other parameter is bound once, in order, to a
+// fresh local. All locals of the body get fresh names.
+func (in *inliner) bindSimple(fd *ast.FuncDecl, sig *types.Signature, call *ast.CallExpr) (subst map[types.Object]ast.Expr, rename map[types.Object]string, pre []ast.Stmt, ok bool) {
+	params, ptypes, ptyps, args := in.formals(fd, sig, call)
+	if len(params) != len(args) {
+		return nil, nil, nil, false
+	}
+	assigned := map[types.Object]bool{}
+	ast.Inspect(fd.Body, func(n ast.Node) bool {
+		mark := func(e ast.Expr) {
+			if e == nil {
+				return
+			}
+			if id, ok := ast.Unparen(e).(*ast.Ident); ok {
+				if o := in.info.Uses[id]; o != nil {
+					assigned[o] = true
+				}
+			}
+		}
+		switch x := n.(type) {
+		case *ast.AssignStmt:
+			for _, l := range x.Lhs {
+				mark(l)
+			}
+		case *ast.IncDecStmt:
+			mark(x.X)
+		case *ast.UnaryExpr:
+			if x.Op == token.AND {
+				mark(x.X)
+			}
+		case *ast.RangeStmt:
+			if x.Tok == token.ASSIGN {
+				mark(x.Key)
+				mark(x.Value)
+			}
+		}
+		return true
+	})
+	subst, rename = map[types.Object]ast.Expr{}, map[types.Object]string{}
+	for i, p := range params {
+		po := in.info.Defs[p]
+		if ao := in.simpleArg(args[i], ptyps[i]); ao != nil && !assigned[po] {
+			// the caller's variable must not be assigned while the body runs: it is not, the body is
+			// the callee's code and cannot name a caller's local
+			subst[po] = ast.Unparen(args[i])
+			continue
+		}
+		in.fresh++
+		name := fmt.Sprintf("%s_inl%d", p.Name, in.fresh)
+		rename[po] = name
+		if tv, has := in.info.Types[args[i]]; has && tv.Type != nil && tv.Value == nil && types.Identical(tv.Type, ptyps[i]) {
+			pre = append(pre, &ast.AssignStmt{Lhs: []ast.Expr{ast.NewIdent(name)}, Tok: token.DEFINE, Rhs: []ast.Expr{args[i]}})
+		} else {
+			pre = append(pre, &ast.DeclStmt{Decl: &ast.GenDecl{Tok: token.VAR, Specs: []ast.Spec{&ast.ValueSpec{
+				Names: []*ast.Ident{ast.NewIdent(name)}, Type: (&cloner{in: in}).node(ptypes[i]).(ast.Expr), Values: []ast.Expr{args[i]}}}}})
+		}
+		// a bound parameter the body never reads would not compile
+		used := false
+		ast.Inspect(fd.Body, func(n ast.Node) bool {
+			if id, ok := n.(*ast.Ident); ok && in.info.Uses[id] == po {
+				used = true
+			}
+			return !used
+		})
+		if !used {
+			pre = append(pre, &ast.AssignStmt{Lhs: []ast.Expr{ast.NewIdent("_")}, Tok: token.ASSIGN, Rhs: []ast.Expr{ast.NewIdent(name)}})
+		}
+	}
+	ast.Inspect(fd.Body, func(n ast.Node) bool {
+		if id, ok := n.(*ast.Ident); ok && id.Name != "_" {
+			if o := in.info.Defs[id]; o != nil {
+				if _, isVar := o.(*types.Var); isVar {
+					if _, done := rename[o]; !done {
+						in.fresh++
+						rename[o] = fmt.Sprintf("%s_inl%d", id.Name, in.fresh)
+					}
+				}
+			}
+		}
+		return true
+	})
+	return subst, rename, pre, true
+}
+
+// earlyStmt inlines a helper whose body returns early, in the two call shapes
+// where every `return` of the helper has an exact counterpart in the caller:
+//
+//	return h(args)                       the helper's returns become the caller's
+//	                                     (result types identical one by one);
+//	if [xs := ] h(args)[; COND] { S }    (no else, S ends in a return): a return of
+//	                                     the helper under which COND is statically
+//	                                     true becomes S with xs bound to the returned
+//	                                     values; one under which COND is statically
+//	                                     false must be the helper's last statement
+//	                                     and falls through to the statement after the
+//	                                     `if`. If COND cannot be evaluated for some
+//	                                     return, nothing is inlined.
+//
+// COND is evaluated over: the constants true/false/nil, `x == nil`, `x != nil`,
+// !, &&, ||, where a returned value is known non-nil if it is a call of
+// errors.New, fmt.Errorf or pars.NewError, or a variable returned inside an
+// `if v != nil { ... }` of the helper.
+func (in *inliner) earlyStmt(st ast.Stmt) []ast.Stmt {
+	switch x := st.(type) {
+	case *ast.ReturnStmt:
+		if len(x.Results) != 1 {
+			return nil
+		}
+		call, ok := x.Results[0].(*ast.CallExpr)
+		if !ok {
+			return nil
+		}
+		fd, sig := in.helperOf(call, true)
+		if fd == nil || !hasEarlyReturn(fd) {
+			return nil
+		}
+		outer := in.retSig[x]
+		if outer == nil || outer.Results().Len() != sig.Results().Len() || sig.Results().Len() == 0 {
+			return nil
+		}
+		for k := 0; k < sig.Results().Len(); k++ {
+			if !types.Identical(outer.Results().At(k).Type(), sig.Results().At(k).Type()) {
+				return nil
+			}
+		}
+		for k := 0; k < outer.Results().Len(); k++ {
+			if outer.Results().At(k).Name() != "" {
+				return nil // named results of the caller: a return assigns them first
+			}
+		}
+		if !terminates(fd.Body.List) {
+			return nil
+		}
+		subst, rename, pre, ok := in.bindSimple(fd, sig, call)
+		if !ok {
+			return nil
+		}
+		cl := &cloner{in: in, subst: subst, rename: rename}
+		out := pre
+		for _, s := range fd.Body.List {
+			out = append(out, cl.node(s).(ast.Stmt))
+		}
+		in.count++
+		return out
+	case *ast.IfStmt:
+		return in.earlyIf(x)
+	}
+	return nil
+}
+
+// terminates: the list ends in a return or a panic call.
+func terminates(list []ast.Stmt) bool {
+	if len(list) == 0 {
+		return false
+	}
+	switch x := list[len(list)-1].(type) {
+	case *ast.ReturnStmt:
+		return true
+	case *ast.ExprStmt:
+		if c, ok := x.X.(*ast.CallExpr); ok {
+			if id, ok := c.Fun.(*ast.Ident); ok && id.Name == "panic" {
+				return true
+			}
+		}
+	}
+	return false
+}
+
+func (in *inliner) earlyIf(is *ast.IfStmt) []ast.Stmt {
+	if is.Else != nil || !terminates(is.Body.List) {
+		return nil
+	}
+	var call *ast.CallExpr
+	var vars []*ast.Ident // the variables the if statement defines from the call (nil: the call is the condition)
+	cond := is.Cond
+	switch init := is.Init.(type) {
+	case nil:
+		c := ast.Unparen(cond)
+		neg := false
+		if u, ok := c.(*ast.UnaryExpr); ok && u.Op == token.NOT {
+			neg, c = true, ast.Unparen(u.X)
+		}
+		call, _ = c.(*ast.CallExpr)
+		if call == nil {
+			return nil
+		}
+		v := ast.NewIdent("\x00result")
+		vars = []*ast.Ident{v}
+		cond = v
+		if neg {
+			cond = &ast.UnaryExpr{Op: token.NOT, X: v}
+		}
+	case *ast.AssignStmt:
+		if init.Tok != token.DEFINE || len(init.Rhs) != 1 {
+			return nil
+		}
+		call, _ = init.Rhs[0].(*ast.CallExpr)
+		for _, l := range init.Lhs {
+			id, ok := l.(*ast.Ident)
+			if !ok {
+				return nil
+			}
+			vars = append(vars, id)
+		}
+	default:
+		return nil
+	}
+	if call == nil {
+		return nil
+	}
+	fd, sig := in.helperOf(call, true)
+	if fd == nil || sig.Results().Len() != len(vars) || len(fd.Body.List) == 0 {
+		return nil
+	}
+	// the body of S must not branch out of a loop of the caller (it would bind to a loop of the helper)
+	bad := false
+	ast.Inspect(is.Body, func(n ast.Node) bool {
+		switch n.(type) {
+		case *ast.BranchStmt, *ast.FuncLit, *ast.LabeledStmt:
+			bad = true
+		}
+		return !bad
+	})
+	if bad {
+		return nil
+	}
+	idx := func(e ast.Expr) int {
+		id, ok := ast.Unparen(e).(*ast.Ident)
+		if !ok {
+			return -1
+		}
+		for k, v := range vars {
+			if v == id || (in.info.Defs[v] != nil && in.info.Uses[id] == in.info.Defs[v]) {
+				return k
+			}
+		}
+		return -1
+	}
+	// nonNil(e, path): the returned expression is known not to be nil
+	parents := Parents(fd.Body)
+	nonNil := func(e ast.Expr, at ast.Node) (known, val bool) {
+		e = ast.Unparen(e)
+		if id, ok := e.(*ast.Ident); ok {
+			if _, isNil := in.info.Uses[id].(*types.Nil); isNil {
+				return true, false
+			}
+			o := in.info.Uses[id]
+			for n := parents[at]; n != nil; n = parents[n] {
+				ifs, ok := n.(*ast.IfStmt)
+				if !ok {
+					continue
+				}
+				// inside the then-branch of `if o != nil`, with no assignment to o in that branch
+				inThen := false
+				for m := at; m != nil; m = parents[m] {
+					if m == ast.Node(ifs.Body) {
+						inThen = true
+					}
+				}
+				be, isBin := ast.Unparen(ifs.Cond).(*ast.BinaryExpr)
+				if !inThen || !isBin || be.Op != token.NEQ {
+					continue
+				}
+				xid, ok1 := ast.Unparen(be.X).(*ast.Ident)
+				yid, ok2 := ast.Unparen(be.Y).(*ast.Ident)
+				if !ok1 || !ok2 || in.info.Uses[xid] != o {
+					continue
+				}
+				if _, isNil := in.info.Uses[yid].(*types.Nil); !isNil {
+					continue
+				}
+				reassigned := false
+				ast.Inspect(ifs.Body, func(m ast.Node) bool {
+					if as, ok := m.(*ast.AssignStmt); ok {
+						for _, l := range as.Lhs {
+							if lid, ok := ast.Unparen(l).(*ast.Ident); ok && (in.info.Uses[lid] == o || in.info.Defs[lid] == o) {
+								reassigned = true
+							}
+						}
+					}
+					return true
+				})
+				if !reassigned {
+					return true, true
+				}
+			}
+			return false, false
+		}
+		if c, ok := e.(*ast.CallExpr); ok {
+			switch FuncID(Callee(in.info, c)) {
+			case "errors.New", "fmt.Errorf", "github.com/go-pars/pars.NewError":
+				return true, true
+			}
+		}
+		return false, false
+	}
+	var eval func(c ast.Expr, rs []ast.Expr, at ast.Node) (known, val bool)
+	eval = func(c ast.Expr, rs []ast.Expr, at ast.Node) (bool, bool) {
+		c = ast.Unparen(c)
+		switch x := c.(type) {
+		case *ast.Ident:
+			if k := idx(x); k >= 0 {
+				if tv, ok := in.info.Types[rs[k]]; ok && tv.Value != nil && tv.Value.Kind() == constant.Bool {
+					return true, constant.BoolVal(tv.Value)
+				}
+				return false, false
+			}
+			if tv, ok := in.info.Types[x]; ok && tv.Value != nil && tv.Value.Kind() == constant.Bool {
+				return true, constant.BoolVal(tv.Value)
+			}
+		case *ast.UnaryExpr:
+			if x.Op == token.NOT {
+				k, v := eval(x.X, rs, at)
+				return k, !v
+			}
+		case *ast.BinaryExpr:
+			switch x.Op {
+			case token.LAND, token.LOR:
+				k1, v1 := eval(x.X, rs, at)
+				k2, v2 := eval(x.Y, rs, at)
+				if x.Op == token.LAND {
+					if (k1 && !v1) || (k2 && !v2 && k1) {
+						return true, false
+					}
+					return k1 && k2, v1 && v2
+				}
+				if (k1 && v1) || (k2 && v2 && k1) {
+					return true, true
+				}
+				return k1 && k2, v1 || v2
+			case token.EQL, token.NEQ:
+				k := idx(x.X)
+				yid, ok := ast.Unparen(x.Y).(*ast.Ident)
+				if k < 0 || !ok {
+					return false, false
+				}
+				if _, isNil := in.info.Uses[yid].(*types.Nil); !isNil {
+					return false, false
+				}
+				known, nn := nonNil(rs[k], at)
+				if !known {
+					return false, false
+				}
+				return true, nn == (x.Op == token.NEQ)
+			}
+		}
+		return false, false
+	}
+	subst, rename, pre, ok := in.bindSimple(fd, sig, call)
+	if !ok {
+		return nil
+	}
+	// how often S mentions each variable
+	useCount := make([]int, len(vars))
+	ast.Inspect(is.Body, func(n ast.Node) bool {
+		if id, ok := n.(*ast.Ident); ok {
+			if k := idx(id); k >= 0 {
+				useCount[k]++
+			}
+		}
+		return true
+	})
+	// S is a single return whose operands are free of calls: a variable used once may be replaced
+	// by the returned expression without changing the order of effects
+	plainS := false
+	if len(is.Body.List) == 1 {
+		if rs, ok := is.Body.List[0].(*ast.ReturnStmt); ok {
+			plainS = true
+			for _, e := range rs.Results {
+				ast.Inspect(e, func(n ast.Node) bool {
+					if _, isCall := n.(*ast.CallExpr); isCall {
+						plainS = false
+					}
+					return plainS
+				})
+			}
+		}
+	}
+	body := fd.Body.List
+	lastRet, _ := body[len(body)-1].(*ast.ReturnStmt)
+	cl := &cloner{in: in, subst: subst, rename: rename}
+	fail := false
+	dropTail := false
+	var resultTypes []ast.Expr
+	if fd.Type.Results != nil {
+		for _, r := range fd.Type.Results.List {
+			n := len(r.Names)
+			if n == 0 {
+				n = 1
+			}
+			for j := 0; j < n; j++ {
+				resultTypes = append(resultTypes, r.Type)
+			}
+		}
+	}
+	// replacement of one return statement of the helper
+	replace := func(r *ast.ReturnStmt) ast.Stmt {
+		known, val := eval(cond, r.Results, r)
+		if !known {
+			fail = true
+			return nil
+		}
+		if !val {
+			if r != lastRet {
+				fail = true
+				return nil
+			}
+			// falls through to the statement after the `if`; the returned expressions must be free of calls
+			for _, e := range r.Results {
+				ast.Inspect(e, func(n ast.Node) bool {
+					if _, isCall := n.(*ast.CallExpr); isCall {
+						fail = true
+					}
+					return !fail
+				})
+			}
+			dropTail = true
+			return &ast.EmptyStmt{}
+		}
+		// S with the variables bound to the returned values
+		sub2 := map[types.Object]ast.Expr{}
+		var binds []ast.Stmt
+		for k, v := range vars {
+			e := cl.node(r.Results[k]).(ast.Expr)
+			simple := false
+			switch y := ast.Unparen(r.Results[k]).(type) {
+			case *ast.Ident, *ast.BasicLit:
+				simple = true
+				_ = y
+			}
+			hasCall := false
+			ast.Inspect(r.Results[k], func(n ast.Node) bool {
+				if _, isCall := n.(*ast.CallExpr); isCall {
+					hasCall = true
+				}
+				return !hasCall
+			})
+			vo := in.info.Defs[v]
+			switch {
+			case vo == nil && v.Name != "_":
+				// the call was the condition itself: nothing to bind, but keep a call's effects
+				if hasCall {
+					binds = append(binds, &ast.AssignStmt{Lhs: []ast.Expr{ast.NewIdent("_")}, Tok: token.ASSIGN, Rhs: []ast.Expr{e}})
+				}
+			case v.Name == "_" || useCount[k] == 0:
+				if hasCall {
+					binds = append(binds, &ast.AssignStmt{Lhs: []ast.Expr{ast.NewIdent("_")}, Tok: token.ASSIGN, Rhs: []ast.Expr{e}})
+				}
+			case simple || (useCount[k] == 1 && plainS && len(binds) == 0):
+				sub2[vo] = e
+			default:
+				if k >= len(resultTypes) {
+					fail = true
+					return nil
+				}
+				binds = append(binds, &ast.DeclStmt{Decl: &ast.GenDecl{Tok: token.VAR, Specs: []ast.Spec{&ast.ValueSpec{
+					Names: []*ast.Ident{ast.NewIdent(v.Name)}, Type: (&cloner{in: in}).node(resultTypes[k]).(ast.Expr), Values: []ast.Expr{e}}}}})
+			}
+		}
+		// sub2 values are already cloned: substitute them as they are
+		c2 := &cloner{in: in, subst: nil, rename: nil, ready: sub2}
+		var list []ast.Stmt
+		list = append(list, binds...)
+		for _, s := range is.Body.List {
+			list = append(list, c2.node(s).(ast.Stmt))
+		}
+		if len(list) == 1 {
+			return list[0]
+		}
+		return &ast.BlockStmt{List: list}
+	}
+	// clone the body, replacing returns
+	var out []ast.Stmt
+	out = append(out, pre...)
+	cl.onReturn = replace
+	for _, s := range body {
+		ns := cl.node(s).(ast.Stmt)
+		if fail {
+			return nil
+		}
+		if _, empty := ns.(*ast.EmptyStmt); empty {
+			continue
+		}
+		out = append(out, ns)
+	}
+	if fail {
+		return nil
+	}
+	if !dropTail && !terminates(body) {
+		return nil
+	}
+	if len(out) == 0 {
+		out = []ast.Stmt{&ast.EmptyStmt{}}
+	}
+	in.count++
+	return out
+}
+
 // cloner deep-copies syntax, replacing identifiers and dropping positions.
 type cloner struct {
-	in     *inliner
-	subst  map[types.Object]ast.Expr
-	rename map[types.Object]string
+	in       *inliner
+	subst    map[types.Object]ast.Expr
+	rename   map[types.Object]string
+	ready    map[types.Object]ast.Expr      // replacements that are already clones (used as they are)
+	onReturn func(*ast.ReturnStmt) ast.Stmt // early-return inlining: what a return of the helper becomes
 }
 
 func (c *cloner) node(n ast.Node) ast.Node {
 	if n == nil {
 		return nil
+	}
+	if rs, ok := n.(*ast.ReturnStmt); ok && c.onReturn != nil {
+		if st := c.onReturn(rs); st != nil {
+			return st
+		}
+		return &ast.EmptyStmt{}
 	}
 	if id, ok := n.(*ast.Ident); ok {
 		o := c.in.info.Uses[id]
@@ -670,6 +1307,9 @@ func (c *cloner) node(n ast.Node) ast.Node {
 			o = c.in.info.Defs[id]
 		}
 		if o != nil {
+			if e, ok := c.ready[o]; ok {
+				return e
+			}
 			if e, ok := c.subst[o]; ok {
 				return (&cloner{in: c.in}).node(e)
 			}
